@@ -266,7 +266,14 @@ func c52Run(sc c52Scenario, id int, tr *vlib.Trace) {
 			ev := map[string]any{"ev": "adv", "kind": st.Kd, "k": st.K, "cls": st.Cls}
 			k := st.K - 1
 			wire := append([]byte(nil), out.wire...)
-			switch st.Kd {
+			kind := st.Kd
+			if kind != "none" && (k < 0 || k >= len(recs) || recs[k] < 0 || (kind == "swap" && (k+1 >= len(recs) || recs[k+1] < 0))) {
+				// the wire does not have the record the behaviour aims at (the record structure
+				// differs from the model's: already visible in the write events): no action
+				kind = "none"
+				ev["kind"], ev["skipped"] = "none", true
+			}
+			switch kind {
 			case "flip":
 				lo, hi := offs[k], offs[k+1]
 				var p int
